@@ -142,6 +142,11 @@ def run_case(ck, rng, stats, samples):
         parts.append(b'header "%s" /%s/%s' % (n, p, f))
         if rng.randrange(3) == 0:
             parts.append(rng.choice(fillers))
+        elif rng.randrange(4) == 0:
+            # conditions that are themselves interpolated in the middle of the rule (they see the patterns matched so far) and hold:
+            # what the later conditions and the actions see does not depend on them
+            parts.append(rng.choice([b'! isdirectory "/nonexistent-verif/\\0"', b'command { "/bin/true" "\\0" "\\%d.0" }' % ci,
+                                     b'! command { "/bin/false" "\\0" }']))
     cond_text = b' and '.join(parts)
     strs = b' '.join(mdrun.conf_quote(t) for t in templates)
     uses_m1 = any(b'${mac}' in t for t in templates)
